@@ -29,6 +29,9 @@ TInit == /\ hi \in 1..Len(Trace) /\ j = 1
 Count(s, x) == Cardinality({i \in 1..Len(s) : s[i] = x})
 Gone(e, p, k, m, f) == IF Count(e.touched.del, <<p, k, m>>) > 0 THEN Absent ELSE f
 Report(name, p, cond) == IF cond THEN TRUE ELSE PrintT(<<"BAD", hi, j, name, p>>)
+\* a file of plot p was deleted or one of its sources changed before run e
+TouchedPlot(e, p) == \/ \E i \in 1..Len(e.touched.del) : e.touched.del[i][1] = p
+                     \/ \E i \in 1..Len(e.touched.data) : e.touched.data[i][1] = p
 NoOverwrite(s) == s.m1 # "overwrite" /\ s.m2 # "overwrite" /\ ~s.lo /\ ~s.po
 Judge(e, dv, tv, pre) ==
   /\ Report("RunRaised", 0, e.exc = "")
@@ -47,6 +50,9 @@ Judge(e, dv, tv, pre) ==
        \* unchanged inputs: nothing rewritten, nothing launched
        /\ Report("NoRedo", p, (j >= 2 /\ e.touched.del = <<>> /\ e.touched.data = <<>> /\ ~e.touched.tpl
                                /\ NoOverwrite(H.set) /\ ~H.obj[p]) => (Nothing(o.wrote, o.launched) /\ e.stray = 0))
+       \* ... and per plot / group: whatever was done to OTHER plots before the run, an untouched plot is not redone
+       /\ Report("NoRedoPlot", p, (j >= 2 /\ ~TouchedPlot(e, p) /\ ~e.touched.tpl
+                                   /\ NoOverwrite(H.set) /\ ~H.obj[p]) => Nothing(o.wrote, o.launched))
 TNext == /\ j <= Len(H.runs)
          /\ LET e == H.runs[j]
                 dv == [p \in 1..NP |-> [m \in 1..H.srcs[p] |-> dataVer[p][m] + Count(e.touched.data, <<p, m>>)]]
